@@ -10,8 +10,8 @@ use std::time::Duration;
 
 #[derive(Serialize, Deserialize, Clone, Debug, PartialEq)]
 pub enum TamperKind {
-    /// replace the byte at `offset` by `value` (different from the original)
-    Subst { offset: usize, value: u8 },
+    /// replace the byte at `offset` by `value`, or by `alt` if the original byte happens to be `value`
+    Subst { offset: usize, value: u8, alt: u8 },
     /// remove the last k bytes
     DropTail { k: usize },
     /// keep only the first `at` bytes
@@ -97,8 +97,7 @@ fn gen_tamper(rng: &mut Rng, sizes: [usize; 3], bytes: [&[u8]; 3]) -> Tamper {
     let kind = match rng.below(10) {
         0..=5 => {
             let offset = pick_offsets(rng, len);
-            let orig = bytes[i].get(offset).cloned().unwrap_or(0);
-            let mut value = match rng.below(6) {
+            let value = match rng.below(6) {
                 0 => b' ',
                 1 => b'\n',
                 2 => b'0' + rng.below(10) as u8,
@@ -106,10 +105,9 @@ fn gen_tamper(rng: &mut Rng, sizes: [usize; 3], bytes: [&[u8]; 3]) -> Tamper {
                 4 => 0,
                 _ => rng.below(256) as u8,
             };
-            if value == orig {
-                value = orig.wrapping_add(1);
-            }
-            TamperKind::Subst { offset, value }
+            let _ = bytes;
+            // the stored bytes depend on the world (ports, checksums); the tamper itself must not
+            TamperKind::Subst { offset, value, alt: if value.is_ascii_digit() { b'0' + (value - b'0' + 1) % 10 } else { value.wrapping_add(1) } }
         }
         6 => TamperKind::DropTail { k: 1 + rng.below(3.min(len.max(1))) },
         7 => TamperKind::Truncate { at: pick_offsets(rng, len) },
@@ -121,10 +119,10 @@ fn gen_tamper(rng: &mut Rng, sizes: [usize; 3], bytes: [&[u8]; 3]) -> Tamper {
 
 fn apply(t: &TamperKind, orig: &[u8]) -> Vec<u8> {
     match t {
-        TamperKind::Subst { offset, value } => {
+        TamperKind::Subst { offset, value, alt } => {
             let mut v = orig.to_vec();
             if *offset < v.len() {
-                v[*offset] = *value;
+                v[*offset] = if v[*offset] == *value { *alt } else { *value };
             }
             v
         }
